@@ -182,6 +182,11 @@ def build(case):
                 hline[f"tb{n}x{j}"] = len(lines) + 1 + len(inner) + 1
                 inner += ["#" * L + f" ts{n}x{j}", "", f"tq{n}x{j} inside titled", ""]
             lines += ["````{mv-titled-section}"] + inner + ["````", ""]
+        elif k == "ri":
+            # a MyST file pulled in by docutils' own include directive (:parser:): a second MyST parse runs while this document is being rendered
+            fn = f"rinc{n}.md"
+            files[fn] = {"para": f"inner paragraph {n}\n", "quote-heading": f"> ## quoted heading {n}\n>\n> text\n", "list": f"- item {n}\n- item\n"}[it[1]]
+            lines += ["```{eval-rst}", f".. include:: {fn}", "   :parser: myst_parser.docutils_", "```", ""]
         elif k == "p":
             m = f"pp{n}"
             lines += [m + " text", ""]
@@ -450,6 +455,8 @@ def run_shard(ctx):
                 items.append(["t", [R.randint(1, 6) for _ in range(R.randint(1, 3))]])
             elif x < 0.74:
                 items.append(["s", [R.randint(1, 6) for _ in range(R.randint(1, 3))]])
+            elif x < 0.77:
+                items.append(["ri", R.choice(["para", "quote-heading", "list"])])
             elif x < 0.8:
                 items.append(["p"])
             elif x < 0.92:
